@@ -51,10 +51,15 @@ class CallsMixin:
         if fr is cx.top and cx.contract.opts.get('stable-from') and cx.contract.opts['stable-from'] in callee:
             st.ghost['stable-on'] = z3.IntVal(1)
         if fr is cx.top:
-            for pat in cx.call_patterns:
-                if pat in callee:
-                    k = 'calls:' + pat
-                    st.ghost[k] = st.ghost.get(k, z3.IntVal(0)) + 1
+            hit = [pat for pat in cx.call_patterns if pat in callee]
+            if hit:
+                # position of this call in the sequence of counted calls (for lastseq())
+                sq = st.ghost.get('seqno', z3.IntVal(0)) + 1
+                st.ghost['seqno'] = sq
+            for pat in hit:
+                k = 'calls:' + pat
+                st.ghost[k] = st.ghost.get(k, z3.IntVal(0)) + 1
+                st.ghost['seq:' + pat] = sq
         r = self.call_static(st, fr, b, i, ins, callee, binds, args, inline_ok)
         if r is None:
             self.callsite_assumptions(st, fr, ins, callee, args)
